@@ -21,7 +21,7 @@ import (
 )
 
 func init() {
-	core.Register(&core.Check{ID: "C13", Level: "model_checking", Run: run, Replay: replay})
+	core.Register(&core.Check{ID: "C13", Level: "model_checking", Run: run, Replay: replay, Worker: schedWorker})
 }
 
 func at(t int64, f func()) {
@@ -495,10 +495,22 @@ func partB(c *core.Ctx) {
 	c.Sample(bCase{Part: "b", Steps: []step{{"B1", "opAdd1"}, {"B1", "opAdd2"}}})
 }
 
+func schedWorker(c *core.Ctx, args []string) {
+	if len(args) > 0 && args[0] == "sched" {
+		sched.WorkerMain(c, concScenarios(), args[1:])
+	}
+}
+
 func run(c *core.Ctx) {
 	partA(c)
 	partB(c)
-	n := c.Count("delta_cases") + c.Count("coalescing_cases")
+	bound := 2
+	if !c.Quick() {
+		bound = 3
+	}
+	c.Set("sched_bound_completed", sched.Drive(c, concOrder, bound))
+	c.Set("sched_schedules", c.Count("schedules"))
+	n := c.Count("delta_cases") + c.Count("coalescing_cases") + c.Count("schedules")
 	c.Set("states", n)
 	c.Set("transitions", n)
 	c.Set("traces_validated_against_impl", n)
@@ -509,6 +521,9 @@ func run(c *core.Ctx) {
 }
 
 func replay(c *core.Ctx, raw json.RawMessage) {
+	if sched.ReplayCase(c, concScenarios(), raw) {
+		return
+	}
 	var probe struct {
 		Part string `json:"part"`
 	}
